@@ -8,6 +8,8 @@ for pid, s in props.PROPS.items():
     for part in s["parts"]:
         fl = part.get("flavour", "asan")
         need.setdefault(fl, set()).update(part.get("targets", [part["exe"]] if "exe" in part else []))
+        for xfl, xt in part.get("also_build", {}).items():
+            need.setdefault(xfl, set()).update(xt)
 ok = True
 for fl, t in need.items():
     b = runner.build(fl, sorted(t))
